@@ -258,7 +258,7 @@ pub fn replay(ctx: &Arc<Ctx>, v: &Value) {
 pub fn run(ctx: &Arc<Ctx>) {
     refmodels::selftest::run(&["sm4"]).unwrap_or_else(|e| ctx.machinery_error(format!("reference self-test failed: {}", e)));
     corpus_selftest(ctx);
-    let lmax = ctx.tier.pick(200usize, 600);
+    let lmax = ctx.tier.pick(200usize, 1100);
     ctx.set_rule("mode x every data length 0..=Lmax x {standard key, seeded key} x IV in {0, seeded, last j bytes 0xFF for j=0..=16} x content {zero, seeded}, and long data {255..257, 1023..1025, 4095..4097, 4111, 65553 bytes; thorough up to 2^20+5} x IVs whose counter is about to carry out of 1, 2 and 8 bytes: ciphertext = reference mode output (length included), library decrypts the reference ciphertext back to the data. Error side: IV lengths 0..=32, CBC ciphertext of every length 0..=Lmax, CBC final plaintext byte every value 0..=255 (well-formed and malformed padding). Plus all operation sequences to depth 3 (thorough 4) on one mode object per mode. Oracle: textbook modes over the reference block cipher, pinned by an OpenSSL-generated corpus.");
     ctx.note_bound(format!("Lmax={}", lmax));
     let seed_key = hex::encode(seeded(ctx.seed, "c07key", 16));
